@@ -26,11 +26,14 @@ type World struct {
 	specs   map[string]*FuncSpec // key: pkgpath::relname   or lib full name
 	ghosts  map[string]*GhostField
 	srcText map[string][]string
+	overlay map[string][]byte
+	rootPkg map[string]bool
+	modPath string
 	specErr []string
 }
 
 func loadWorld(repo string, patterns []string, libDir string, overlay map[string][]byte) (*World, error) {
-	w := &World{repo: repo, specs: map[string]*FuncSpec{}, ghosts: map[string]*GhostField{}, srcText: map[string][]string{}}
+	w := &World{repo: repo, specs: map[string]*FuncSpec{}, ghosts: map[string]*GhostField{}, srcText: map[string][]string{}, overlay: overlay, rootPkg: map[string]bool{}}
 	cfg := &packages.Config{
 		Mode:       packages.LoadSyntax | packages.NeedModule,
 		Dir:        repo,
@@ -47,6 +50,15 @@ func loadWorld(repo string, patterns []string, libDir string, overlay map[string
 		}
 	}
 	w.pkgs = pkgs
+	for _, p := range pkgs {
+		w.rootPkg[p.PkgPath] = true
+		if p.Module != nil {
+			w.modPath = p.Module.Path
+		}
+	}
+	if w.modPath == "" {
+		w.modPath = "github.com/ozontech/file.d"
+	}
 	if len(pkgs) > 0 {
 		w.fset = pkgs[0].Fset
 	}
@@ -233,10 +245,33 @@ func (w *World) functionsUnderContract() ([]*ssa.Function, []string) {
 	sort.Slice(out, func(i, j int) bool { return out[i].String() < out[j].String() })
 	var missing []string
 	for k, fs := range w.specs {
-		if !fs.Trusted && !seen[fs] {
+		if !fs.Trusted && !seen[fs] && w.rootPkg[fs.Pkg] {
 			missing = append(missing, k)
 		}
 	}
 	sort.Strings(missing)
 	return out, missing
+}
+
+func (w *World) sourceLine(p token.Pos) string {
+	if !p.IsValid() {
+		return ""
+	}
+	pp := w.fset.Position(p)
+	lines, ok := w.srcText[pp.Filename]
+	if !ok {
+		var data []byte
+		if w.overlay != nil {
+			data = w.overlay[pp.Filename]
+		}
+		if data == nil {
+			data, _ = os.ReadFile(pp.Filename)
+		}
+		lines = strings.Split(string(data), "\n")
+		w.srcText[pp.Filename] = lines
+	}
+	if pp.Line-1 < len(lines) && pp.Line >= 1 {
+		return strings.Join(strings.Fields(lines[pp.Line-1]), " ")
+	}
+	return ""
 }
